@@ -197,7 +197,11 @@ func parseArgs(argStr string) []string {
 func (v *Vue) evalPipe(ctx VueContext, expr pipeExpr) (any, error) {
 	// Handle direct function calls (no initial value)
 	if expr.initial == "" && len(expr.segments) > 0 {
-		val, err := v.evalSegment(ctx, expr.segments[0], nil, true, false)
+		first := expr.segments[0]
+		if first.typ == segmentFilter && v.callNeedsEvaluator(first) {
+			first = pipeSegment{typ: segmentExpr, expr: first.expr}
+		}
+		val, err := v.evalSegment(ctx, first, nil, true, false)
 		if err != nil {
 			return nil, err
 		}
@@ -233,6 +237,36 @@ func (v *Vue) evalPipe(ctx VueContext, expr pipeExpr) (any, error) {
 	}
 
 	return val, nil
+}
+
+// callNeedsEvaluator reports whether a call that is a whole expression has to be evaluated
+// by the expression evaluator, like it is in conditions and next to operators: one of its
+// arguments is itself a call (the filter path would take it as literal text), or it calls a
+// built-in of the expression library rather than a registered template function.
+func (v *Vue) callNeedsEvaluator(seg pipeSegment) bool {
+	if _, registered := v.funcMap[seg.name]; !registered {
+		if _, isBuiltin := builtin.Index[seg.name]; isBuiltin {
+			return true
+		}
+	}
+	for _, arg := range seg.args {
+		quote := byte(0)
+		for i := 0; i < len(arg); i++ {
+			switch c := arg[i]; {
+			case quote != 0:
+				if c == '\\' {
+					i++
+				} else if c == quote {
+					quote = 0
+				}
+			case c == '"' || c == '\'':
+				quote = c
+			case c == '(':
+				return true
+			}
+		}
+	}
+	return false
 }
 
 // exprEnv returns the environment for expression evaluation: the variables in scope plus
